@@ -131,6 +131,24 @@ def _replay(stem, vals):
             s = 2 * mu * iso.strain(P) + lam * np.trace(iso.strain(P)) * np.eye(3)
             if not np.allclose(iso.stress(P), s, atol=1e-9):
                 msgs.append('isotropic stress differs from Hooke\'s law at %r' % P.tolist())
+        for mn in (('y', 'z'), ('z', 'x'), ('z', 'y')):
+            iso2 = am.defect.IsotropicVolterraDislocation(am.ElasticConstants(mu=0.7, **{'lambda': 1.3}), burgers=[0.7, 0.2, 0.4], m=mn[0], n=mn[1])
+            for P in pos:
+                grad = np.zeros((3, 3))
+                for j in range(3):
+                    d = np.zeros(3)
+                    d[j] = h
+                    grad[:, j] = (iso2.displacement(P + d) - iso2.displacement(P - d)) / (2 * h)
+                e = 0.5 * (grad + grad.T)
+                if not np.allclose(iso2.strain(P), e, atol=1e-6):
+                    msgs.append('isotropic strain (m=%s, n=%s) differs from the symmetric gradient of the displacement at %r' % (mn[0], mn[1], P.tolist()))
+                    break
+        ax = [[3, 4, 0], [-4, 3, 0], [0, 0, 2]]
+        s_ax = am.defect.Stroh(C, burgers=[1.0, 0.5, 0.25], axes=ax)
+        s_tr = am.defect.Stroh(C, burgers=[1.0, 0.5, 0.25], transform=ax)
+        un = np.array(ax, dtype=float) / np.linalg.norm(ax, axis=1)[:, None]
+        if not (np.allclose(s_ax.transform, un) and np.allclose(s_ax.burgers, un.dot([1.0, 0.5, 0.25])) and np.allclose(s_ax.burgers, s_tr.burgers)):
+            msgs.append('orientation through axes=%r: transform %r, Burgers vector %r (transform= gives %r)' % (ax, np.round(s_ax.transform, 4).tolist(), s_ax.burgers.tolist(), s_tr.burgers.tolist()))
         up = iso.displacement([-1.0, 1e-9, 0.0])
         dn = iso.displacement([-1.0, -1e-9, 0.0])
         if not np.allclose(up - dn, [0.7, 0.0, 0.4], atol=1e-6):
@@ -246,12 +264,27 @@ def stroh_K(E, L):
 # ----------------------------------------------------------------------------
 # isotropic closed form
 
-def _mk_iso(E, L, region):
+FRAMES = [(0, 1), (1, 2), (2, 0), (1, 0), (2, 1), (0, 2)]          # (axis of m, axis of n); xi = m x n is +- the remaining axis
+
+
+def _frame_axes(frame):
+    a, b_ = frame
+    c = 3 - a - b_
+    sign = 1.0 if (a, b_, c) in ((0, 1, 2), (1, 2, 0), (2, 0, 1)) else -1.0
+    m = [0.0, 0.0, 0.0]
+    n = [0.0, 0.0, 0.0]
+    xi = [0.0, 0.0, 0.0]
+    m[a], n[b_], xi[c] = 1.0, 1.0, sign
+    return a, b_, c, sign, m, n, xi
+
+
+def _mk_iso(E, L, region, frame=(0, 1)):
     mod = L.load(ISO)
     iso = object.__new__(mod.IsotropicVolterraDislocation)
-    iso._VolterraDislocation__m = snp.array([1.0, 0.0, 0.0])
-    iso._VolterraDislocation__n = snp.array([0.0, 1.0, 0.0])
-    iso._VolterraDislocation__ξ = snp.array([0.0, 0.0, 1.0])
+    a_, b_, c_, sign_, m_, n_, xi_ = _frame_axes(frame)
+    iso._VolterraDislocation__m = snp.array(m_)
+    iso._VolterraDislocation__n = snp.array(n_)
+    iso._VolterraDislocation__ξ = snp.array(xi_)
     b = E.reals('b', (3,))
     iso._VolterraDislocation__burgers = b
     iso._VolterraDislocation__tol = 1e-8
@@ -279,14 +312,21 @@ def _resolve_branches(E, name, t, facts_true, facts_false):
     return Sym(tm.substitute(t.t, mapping))
 
 
-def _iso_region_group(region):
+def _iso_region_group(region, frame=(0, 1)):
+    ftag = '' if frame == (0, 1) else ',m=%s,n=%s' % ('xyz'[frame[0]], 'xyz'[frame[1]])
+    region_name = region
+    region = region + ftag
+
     @group('isotropic.fields[%s]' % region, files=[ISO], functions=['IsotropicVolterraDislocation.theta', 'IsotropicVolterraDislocation.displacement', 'IsotropicVolterraDislocation.strain',
                                                                     'IsotropicVolterraDislocation.stress'],
            clause='closed-form isotropic solution on the open region "%s" of the plane: strain is the symmetric gradient of the displacement, stress = 2 mu eps + lambda tr(eps) I with '
                   'lambda = 2 mu nu/(1-2nu), the stress is divergence-free, and strain and stress fall off as 1/r' % region, replay=_replay, timeout_ms=60000)
     def h_(E, L):
-        mod, iso, b, mu, nu, x, y, z = _mk_iso(E, L, region)
-        pos = snp.array([x, y, z])
+        mod, iso, b, mu, nu, x, y, z = _mk_iso(E, L, region_name, frame)
+        a_, b_, c_, sign_, m_, n_, xi_ = _frame_axes(frame)
+        plist = [None, None, None]
+        plist[a_], plist[b_], plist[c_] = x, y, z * sign_            # Cartesian position with coordinates (x, y, z) along (m, n, xi)
+        pos = snp.array(plist)
         E.side_enabled = False
         u = iso.displacement(pos)
         eps = iso.strain(pos)
@@ -299,20 +339,24 @@ def _iso_region_group(region):
                 if s_.op == 'ite':
                     conds.add(s_.args[0])
         true_c, false_c = [], []
-        for k_, c in enumerate(sorted(conds, key=lambda t: t.uid)):
+        for c in sorted(conds, key=lambda t: tm.show(t, 50)):
+            k_ = hashlib.md5(tm.show(c, 50).encode()).hexdigest()[:8]         # a name that does not depend on the order in which terms were created
             # try "condition holds" then "condition fails": exactly one of the two obligations is stated, chosen by a concrete sample point of the region
-            sample = {'right': (1.0, 0.5), 'upper_left': (-1.0, 0.5), 'lower_left': (-1.0, -0.5)}[region]
+            sample = {'right': (1.0, 0.5), 'upper_left': (-1.0, 0.5), 'lower_left': (-1.0, -0.5)}[region_name]
             val = tm.evaluate(c, {'x': Fraction(sample[0]), 'y': Fraction(sample[1]), 'z': Fraction(0), 'mu': Fraction(1), 'nu': Fraction(1, 4), 'b_0': Fraction(1), 'b_1': Fraction(0), 'b_2': Fraction(1),
                                   'pi': Fraction(355, 113)})
             if val:
-                E.prove('iso.branch_condition_holds_on_region[%s][%d]' % (region, k_), Sym(c))
+                E.prove('iso.branch_condition_holds_on_region[%s][%s]' % (region, k_), Sym(c))
                 true_c.append(c)
             else:
-                E.prove('iso.branch_condition_fails_on_region[%s][%d]' % (region, k_), Sym(tm.not_(c)))
+                E.prove('iso.branch_condition_fails_on_region[%s][%s]' % (region, k_), Sym(tm.not_(c)))
                 false_c.append(c)
         U = [_resolve_branches(E, 'u', comp, true_c, false_c) for comp in u]
-        X = [x, y, z]
-        grad = [[Sym(D(U[i].t, X[j].t)) for j in range(3)] for i in range(3)]
+        X = [None, None, None]
+        X[a_], X[b_], X[c_] = x, y, z
+        chain = [1.0, 1.0, 1.0]
+        chain[c_] = sign_                                             # d/d(pos_c) = sign d/dz
+        grad = [[Sym(D(U[i].t, X[j].t)) * chain[j] for j in range(3)] for i in range(3)]
         lam = 2 * mu * nu / (1 - 2 * nu)
         for i in range(3):
             for j in range(i, 3):
@@ -325,14 +369,14 @@ def _iso_region_group(region):
         for i in range(3):
             div = None
             for j in range(3):
-                t = Sym(D(sig[i, j].t, X[j].t))
+                t = Sym(D(sig[i, j].t, X[j].t)) * chain[j]
                 div = t if div is None else div + t
             E.prove('iso.stress_divergence_free[%s][%d]' % (region, i), div == 0)
         # 1/r: scale the position by s > 0 (same region)
         s = E.real('s')
         E.assume(s > 0)
-        eps_s = iso.strain(snp.array([s * x, s * y, s * z]))
-        sig_s = iso.stress(snp.array([s * x, s * y, s * z]))
+        eps_s = iso.strain(snp.array([s * q for q in plist]))
+        sig_s = iso.stress(snp.array([s * q for q in plist]))
         for i in range(3):
             for j in range(i, 3):
                 E.prove('iso.strain_falls_off_as_1_over_r[%s][%d,%d]' % (region, i, j), eps_s[i, j] * s == eps[i, j])
@@ -341,8 +385,9 @@ def _iso_region_group(region):
     return h_
 
 
-for _r in ('right', 'upper_left', 'lower_left'):
-    _iso_region_group(_r)
+for _f in FRAMES:
+    for _r in ('right', 'upper_left', 'lower_left'):
+        _iso_region_group(_r, _f)
 
 
 @group('isotropic.burgers_jump', files=[ISO], functions=['IsotropicVolterraDislocation.theta', 'IsotropicVolterraDislocation.displacement'],
@@ -422,6 +467,58 @@ def solve_dispatch(E, L):
         E.prove('solve.other_errors_propagate', True)
     x = E.real('x')
     E.canary('solve.canary', x == 0)
+
+
+@group('volterra.orientation', files=[VOLT, 'atomman/tools/axes_check.py'], functions=['VolterraDislocation.solve'],
+       clause='orientation given by a rotation, through either keyword (transform= or the legacy axes=), also with non-unit (integer) axis vectors: the stored transform is the '
+              'orthonormal matrix whose rows are the normalised axis vectors, the Cartesian Burgers vector is that matrix times the given one (symbolic), the stiffness is rotated by '
+              'the same matrix, m, n and xi = m x n are stored; giving both keywords, or a rotation together with Miller indices, is refused', replay=_replay, timeout_ms=30000)
+def volterra_orientation(E, L):
+    mod = L.load(VOLT)
+    VD = mod.VolterraDislocation
+    b = E.reals('b', (3,))
+    E.canary('volterra.orientation.canary', b[0] == b[1])
+    E.side_enabled = False
+    rows = [[3, 4, 0], [-4, 3, 0], [0, 0, 2]]                  # orthogonal, right-handed, NOT unit vectors, with rational lengths (exact arithmetic in the normalisation)
+    unit = [[0.6, 0.8, 0.0], [-0.8, 0.6, 0.0], [0.0, 0.0, 1.0]]
+    for kwname in ('transform', 'axes'):
+        for given, nm in ((rows, 'integer_vectors'), (unit, 'unit_vectors')):
+            for mn in (('x', 'y'), ('y', 'z')):
+                calls = []
+
+                class Cstub(object):
+                    def transform(self, T):
+                        calls.append(_np.array([[float(x) for x in r] for r in snp.asarray(T)]))
+                        return 'rotated C'
+                vd = object.__new__(VD)
+                # Burgers vector large compared with the clean-up tolerance, so that no component is zeroed
+                E.assume(And(b[0] > 1, b[1] > 1, b[2] > 1, b[0] < 2, b[1] < 2, b[2] < 2))
+                VD.solve(vd, Cstub(), b, m=mn[0], n=mn[1], **{kwname: given})
+                tag = 'orientation[%s=%s,m=%s,n=%s]' % (kwname, nm, mn[0], mn[1])
+                T = _np.array([[float(x) for x in r] for r in snp.asarray(vd.transform)])
+                E.prove(tag + '.transform_rows_are_normalised_axes', T.shape == (3, 3) and bool(_np.allclose(T, _np.array(unit), atol=1e-12)))
+                E.prove(tag + '.transform_orthonormal', bool(_np.allclose(T.dot(T.T), _np.eye(3), atol=1e-12)))
+                E.prove(tag + '.stiffness_rotated_by_the_same_matrix', len(calls) == 1 and bool(_np.allclose(calls[0], _np.array(unit), atol=1e-12)) and vd.C == 'rotated C')
+                for i in range(3):
+                    want = sum(realconst(Fraction(unit[i][j]).limit_denominator(10**15)) * b[j] for j in range(3))
+                    got = vd.burgers[i]
+                    # kept (not a negligible component) and equal to the rotated component up to the float representation of the normalised axes
+                    E.prove(tag + '.burgers_rotated[%d]' % i, And(got - want < 1e-7, want - got < 1e-7))
+                ax = {'x': [1.0, 0, 0], 'y': [0, 1.0, 0], 'z': [0, 0, 1.0]}
+                E.prove(tag + '.axes_stored', [float(v) for v in vd.m] == ax[mn[0]] and [float(v) for v in vd.n] == ax[mn[1]]
+                        and [float(v) for v in vd.ξ] == list(_np.cross(ax[mn[0]], ax[mn[1]])))
+    for kw, nm in ((dict(transform=unit, axes=unit), 'both_keywords'), (dict(transform=unit, ξ_uvw=[1, 1, -2], slip_hkl=[1, 1, 1]), 'rotation_with_miller'),
+                   (dict(ξ_uvw=[1, 1, -2]), 'line_without_plane')):
+        vd = object.__new__(VD)
+
+        class C2(object):
+            def transform(self, T):
+                return self
+        try:
+            VD.solve(vd, C2(), b, **kw)
+            E.prove('orientation.refuses[%s]' % nm, False)
+        except AssertionError:
+            E.prove('orientation.refuses[%s]' % nm, True)
 
 
 # ----------------------------------------------------------------------------
